@@ -71,6 +71,9 @@ class World:
         names = [n for n, _ in case.projects]
         # caller-owned parameter objects
         self.init = [self.projs[n] for n in core.gen_init(rng, case)]
+        if rng.random() < 0.5:
+            # the caller's initial allocation is often a BudgetAllocation object (e.g. the outcome of an earlier rule)
+            self.init = BudgetAllocation(self.init)
         sub, tot = [], F(0)
         for n in rng.sample(names, len(names)):
             if rng.random() < 0.6 and tot + case.cost[n] <= case.budget:
